@@ -56,7 +56,13 @@ def expand(job):
             a = dict(a, prec="hms", mi=max(a["mi"], 0), ss=max(a["ss"], 0))
             yield {"mode": sp, "kind": "notations", "a": a, "d": dict(rnd.choice(recur.EXACT_IV)), "n": rnd.randint(2, 6)}
         else:
-            yield {"mode": sp, "rec": recur.rand_recurrence(rnd, m, whole_anchor=rnd.random() < 0.9, maxn=rnd.choice([6, 9, 13]))}
+            d = recur.rand_recurrence(rnd, m, whole_anchor=rnd.random() < 0.9, maxn=rnd.choice([6, 9, 13]),
+                                      years=[1999, 2000, 2004, 2019, 2020] if rnd.random() < 0.3 else None)
+            if rnd.random() < 0.35 and recur.parseable(d):
+                d["via"] = "parse"
+                if rnd.random() < 0.5 and d["fmt"] != 1 and d["a"]["rep"] == "cal":      # few distinct texts: the same expression recurs under several modes
+                    d["a"] = dict(d["a"], y=2020, a=2, b=28)
+            yield {"mode": sp, "rec": d}
 
 
 def jobs(tier, seed):
